@@ -16,6 +16,7 @@ kill as a silent step.
 Oracle: the rerun exits 0 and its binary is byte-identical to the never-interrupted reference.
 """
 import os
+import re
 import signal
 import subprocess
 import sys
@@ -42,6 +43,7 @@ def crash_points(tier, rng, ref_events):
     ev("link-version-checked", 1, ("old", "old"))
     ev("link-build-start", 1, ("old", "old"))
     ev("link-build-done", 1, ("none", "old"))
+    ev("link-renamed", 1, ("old", "old"))
     ev("link-stamp-written", 1)
     ev("link-unlock", 1, ("old", "none"))
     # go list / first, middle, last compile / cache put / source write / link / clean-up
@@ -74,9 +76,27 @@ def main(tier, seed):
     chk.rule = ("crash point = (hook event occurrence or wall-clock instant) x initial linker-cache state x flags; one evaluation = "
                 "killed build + rerun; non-trivial = the kill really interrupted the build")
     chk.assumptions = ["kill -9 of the whole process group models the interruption; power loss (un-synced data) is out of scope",
-                       "copy-mode writes of `go build -o` are covered by the model (CopyMode=TRUE), not by real crash points"]
+                       "a kill in the middle of cmd/go's cross-device copy is not timed for real: the state it leaves (head of the file "
+                       "present) is taken from TLC's post-kill states and concretised"]
     for cfg in ("Linker-c18-copy.cfg", "Linker-c18-rename.cfg"):
         chk.add_tlc(tlc_must_pass("Linker", cfg, timeout=900))
+    # what-if: the code before the fix of F18 (go build -o straight to the cached path, which cmd/go
+    # considers up to date when it carries the build ID): TLC must reject it
+    rw = tlc("Linker", "Linker-c18-copy-prefix.cfg", timeout=900)
+    chk.add_tlc(rw)
+    chk.extra["whatif_direct_output_violates"] = rw.violated
+    if rw.violated != "NeverHalfWritten":
+        raise Inconclusive(f"Linker.tla what-if (direct output) no longer violates NeverHalfWritten: {rw.violated} {rw.error}")
+    # B2: the file-system states TLC says a kill can leave behind (temp file + rename as the code has it,
+    # and direct output as it was / as a regression would have it), each concretised and rerun below
+    postkill = set()
+    for cfg in ("Linker-c18-postkill.cfg", "Linker-c18-postkill-direct.cfg"):
+        rp = tlc_must_pass("Linker", cfg, timeout=900)
+        chk.add_tlc(rp)
+        for m in re.finditer(r'<<"POSTKILL", "(\w+)", "(\w+)", "(\w+)">>', rp.out):
+            postkill.add(m.groups())
+    if len(postkill) < 10:
+        raise Inconclusive(f"TLC exported only {len(postkill)} post-kill states")
 
     work = mkscratch("c18")
     garble = build_garble("verif")
@@ -168,6 +188,44 @@ def main(tier, seed):
         rmtree(root)
 
     parallel(experiment, list(enumerate(points)), workers=4)
+
+    # ---- replay of TLC's post-kill file-system states: a plain build on each must succeed and match
+    pk = sorted(postkill)
+    if tier == "quick":
+        # every state with a cut-short file, plus a sample of the others
+        cut = [x for x in pk if "partial" in x]
+        rest = [x for x in pk if "partial" not in x]
+        chk.rng.shuffle(rest)
+        pk = cut + rest[:3]
+
+    def poststate(idx_st):
+        idx, (st, bn, tm) = idx_st
+        root = work / f"pk{idx}"
+        src = write_proto(root / "src")
+        sb = Sandbox(root / "sb", template=True)
+        set_linker_state(sb.gcache, tool, st, bn, tm)
+        trace = root / "trace.ndjson"
+        r2 = sb.garble(["build", "-o", str(root / "prog"), "."], cwd=src, trace=trace, timeout=1500)
+        want = ref.build(0, [])
+        witness = {"point": "post-kill-state", "stamp": st, "bin": bn, "tmp": tm}
+        files = {"trace.ndjson": trace, "rerun-stderr.txt": r2.stderr[-4000:]}
+        with lock:
+            chk.case(["post-kill-state", st, bn, tm], sample=witness if idx % 5 == 0 else None)
+            if r2.returncode != 0:
+                chk.violation(dict(witness, kind="rerun-failed"), files,
+                              what=f"build on the post-kill linker cache state stamp={st} link={bn} link.tmp={tm} failed: {r2.stderr[-300:]}")
+            elif sha256_file(root / "prog") != want["sha"]:
+                chk.violation(dict(witness, kind="binary-differs"), files, what=f"build on post-kill state {st}/{bn}/{tm} produced a different binary")
+            if (sb.gcache / "tool" / "old-linker-used").exists():
+                chk.violation(dict(witness, kind="foreign-linker-used"), files, what=f"post-kill state {st}/{bn}/{tm}: a linker of another version was executed")
+            fs = observe_linker_state(sb.gcache, tool)
+            if r2.returncode == 0 and fs != ("cur", "cur"):
+                chk.violation(dict(witness, kind="cache-left-damaged", fs=list(fs)), files,
+                              what=f"after a successful build on post-kill state {st}/{bn}/{tm} the linker cache is {fs}, not (cur, cur)")
+        rmtree(root)
+
+    parallel(poststate, list(enumerate(pk)), workers=4)
+    chk.extra["post_kill_states_replayed"] = [list(x) for x in pk]
     chk.extra["crash_points"] = len(points)
     chk.extra["uninterrupted_build_s"] = round(duration, 1)
     if len(chk.distinct) < len(points) // 2:
